@@ -1,23 +1,39 @@
 #!/usr/bin/env python3
 """try_mutant.py <ID[,ID2..]> <repo-relative-file> <old> <new> [tier]
-Applies a textual mutation to /repo (must be clean), runs the quick check(s), reverts. Prints CAUGHT/MISSED."""
+   try_mutant.py <ID[,ID2..]> --patch <patch-file> [tier]
+Runs the check(s) against a MUTATED COPY of /repo in /tmp/mutlab (never touches /repo or /verif):
+/tmp/mutlab/repo is re-synced from /repo, /tmp/mutlab/verif from /verif (with path deps rewritten), so builds are incremental.
+Prints CAUGHT/MISSED per check."""
 import subprocess, sys, os
-ids, f, old, new = sys.argv[1].split(','), sys.argv[2], sys.argv[3], sys.argv[4]
-tier = sys.argv[5] if len(sys.argv) > 5 else 'quick'
-p = os.path.join('/repo', f)
-st = subprocess.run(['git','-C','/repo','status','--porcelain'],capture_output=True,text=True).stdout.strip()
-if st:
-    print("repo not clean:", st); sys.exit(2)
-s = open(p).read()
-if s.count(old) != 1:
-    print(f"pattern occurs {s.count(old)} times"); sys.exit(2)
-open(p,'w').write(s.replace(old,new))
-try:
-    for i in ids:
-        r = subprocess.run(['./check', i, tier], cwd='/verif', capture_output=True, text=True)
-        out = [l for l in (r.stdout + r.stderr).splitlines() if 'VIOLATION' in l or 'signature=' in l or 'BUILD-FAILED' in l or 'error' in l.lower()]
-        verdict = {0:'MISSED',1:'CAUGHT'}.get(r.returncode, f'EXIT{r.returncode}')
-        print(f"{i}: {verdict}")
-        for l in out[:6]: print("   ", l[:300])
-finally:
-    subprocess.run(['git','-C','/repo','checkout','--','.'])
+LAB = '/tmp/mutlab'
+def sh(*a, **k): return subprocess.run(*a, **k)
+def sync():
+    os.makedirs(LAB, exist_ok=True)
+    sh(['rsync','-a','--delete','--exclude','target','--exclude','.git','/repo/', LAB+'/repo/'], check=True)
+    sh(['rsync','-a','--delete','--exclude','harness/target','--exclude','harness/target-*','--exclude','work','--exclude','evidence','--exclude','replays','--exclude','.git','--exclude','harness/Cargo.toml','--exclude','fpprobe/Cargo.toml', '--exclude', 'harness/fuzz/target',
+        '/verif/', LAB+'/verif/'], check=True)
+    for rel in ['harness/Cargo.toml']:
+        src = open('/verif/'+rel).read().replace('/repo/', LAB+'/repo/')
+        dst = LAB+'/verif/'+rel
+        if not os.path.exists(dst) or open(dst).read() != src:
+            open(dst,'w').write(src)
+ids = sys.argv[1].split(',')
+sync()
+if sys.argv[2] == '--patch':
+    tier = sys.argv[4] if len(sys.argv) > 4 else 'quick'
+    r = sh(['patch','-p1','-s','-d',LAB+'/repo','-i',os.path.abspath(sys.argv[3])])
+    if r.returncode != 0: print("patch failed"); sys.exit(2)
+else:
+    f, old, new = sys.argv[2], sys.argv[3], sys.argv[4]
+    tier = sys.argv[5] if len(sys.argv) > 5 else 'quick'
+    p = os.path.join(LAB, 'repo', f)
+    s = open(p).read()
+    if s.count(old) != 1:
+        print(f"pattern occurs {s.count(old)} times"); sys.exit(2)
+    open(p,'w').write(s.replace(old,new))
+for i in ids:
+    r = sh(['./check', i, tier], cwd=LAB+'/verif', capture_output=True, text=True)
+    out = [l for l in (r.stdout + r.stderr).splitlines() if 'VIOLATION' in l or 'signature=' in l or 'BUILD-FAILED' in l or l.startswith('error')]
+    verdict = {0:'MISSED',1:'CAUGHT'}.get(r.returncode, f'EXIT{r.returncode}')
+    print(f"{i}: {verdict}")
+    for l in out[:6]: print("   ", l[:300])
